@@ -27,10 +27,11 @@ RESET_DROPS_LINK = 0   # F28: SGR 0 also drops the OSC 8 hyperlink
 OFF_SINGLE = 0         # F29: 24 / 25 leave the double underline / rapid blink on
 CR_ERASES = 0          # F31: a line ending in "\r" (CR LF output) decodes to nothing
 SGR_LAZY = 0           # F32: any "ESC [" is read as SGR up to the next "m": ESC[?25l / ESC[2K / ESC[1A swallow the text after them
-FLAGS = "".join(str(int(bool(x))) for x in (INT_RAISES, FLUSH_RAW, EMPTY_IGNORED, RESET_DROPS_LINK, OFF_SINGLE, CR_ERASES, SGR_LAZY))
-# development aid only (running against another checkout, VERIF_REPO=<worktree>): VERIF_C19_FLAGS=0000000 overrides the constants above
+OSC_ST_ONLY = 0        # F33: an OSC string ending in BEL (the common form of OSC 8 / OSC 0) is not recognised: link lost, "8;;url" printed
+FLAGS = "".join(str(int(bool(x))) for x in (INT_RAISES, FLUSH_RAW, EMPTY_IGNORED, RESET_DROPS_LINK, OFF_SINGLE, CR_ERASES, SGR_LAZY, OSC_ST_ONLY))
+# development aid only (running against another checkout, VERIF_REPO=<worktree>): VERIF_C19_FLAGS=00000000 overrides the constants above
 FLAGS = os.environ.get("VERIF_C19_FLAGS") or FLAGS
-assert len(FLAGS) == 7 and set(FLAGS) <= {"0", "1"}
+assert len(FLAGS) == 8 and set(FLAGS) <= {"0", "1"}
 
 ESC = "\x1b"
 LINE_SEPS = {10, 11, 12, 13, 28, 29, 30, 133, 8232, 8233}  # isLineSep in Model/Ansi.lean
@@ -257,6 +258,8 @@ def foreign_stream(rng, newline=False):
             linked = not linked
         elif r < 0.72:
             parts.append(rng.choice(CSI_OTHER))
+        elif r < 0.78:
+            parts.append(rng.choice([ESC + "]8;;http://b.el\x07", ESC + "]8;;\x07", ESC + "]0;title\x07", ESC + "]2;t" + ESC + "\\"]))
         else:
             parts.append(rng.choice(["a", "bc", "日本", " ", "x=1", "items", "m"]))
     return "".join(parts) + ("\r" if rng.random() < 0.1 else "")
@@ -267,13 +270,16 @@ def classify_meaning_diff(stream, got_rows, want_rows):
     returned only if the stream read with exactly that one deviation explains what was observed (None = anything else,
     including a combination)."""
     def cells(rows):
-        rows = [[tuple(c) for c in r] for r in rows]
+        rows = [[tuple(c) for c in r if c[0] != "\x07"] for r in rows]  # a BEL left in the text is not a cell
         while rows and not rows[-1]:
             rows.pop()
         return rows
 
-    for dev, slug in (("cr", "decode-trailing-cr-erases-line"), ("csi-lazy", "csi-swallows-text"),
-                      ("empty", "sgr-empty-param-ignored"), ("reset-link", "sgr-reset-drops-link"), ("off-single", "sgr-off-keeps-double")):
+    # only deviations of the variant the check is run against (flag still 1) can explain a failure
+    for dev, slug, bit in (("osc-bel", "osc-bel-terminator", 7), ("cr", "decode-trailing-cr-erases-line", 5), ("csi-lazy", "csi-swallows-text", 6),
+                           ("empty", "sgr-empty-param-ignored", 2), ("reset-link", "sgr-reset-drops-link", 3), ("off-single", "sgr-off-keeps-double", 4)):
+        if FLAGS[bit] != "1":
+            continue
         try:
             alt, _ = L.stream_meaning(stream, deviation=dev)
         except Exception:  # noqa: BLE001
@@ -354,8 +360,27 @@ def section_decoder(ctx, tick):
                ESC + "]8;;http://u" + ESC + "\\" + ESC + "[1mA" + ESC + "[0mB" + ESC + "]8;;" + ESC + "\\C",
                ESC + "[21md" + ESC + "[24mn", ESC + "[6mr" + ESC + "[25ms", ESC + "[4;21mu" + ESC + "[24mn",
                "foo\r", "10%\r\r", ESC + "[?25lloading items", ESC + "[2Kcleared line, more text", "a" + ESC + "[1Aup, then m rest",
-               sgr(1, 31) + "red" + ESC + "[2Kx" + sgr(0) + "plain", ESC + "[Hhome", ESC + "[10;20Hmoved", ESC + "[>4;2mxterm"]:
+               sgr(1, 31) + "red" + ESC + "[2Kx" + sgr(0) + "plain", ESC + "[Hhome", ESC + "[10;20Hmoved", ESC + "[>4;2mxterm",
+               ESC + "]8;;http://x\x07link text" + ESC + "]8;;\x07 after", ESC + "]0;window title\x07text", ESC + "]8;;u\x07a" + ESC + "]8;;" + ESC + "\\b"]:
         meaning_check(s0)
+    # escape sequences that are neither SGR, OSC nor CSI: compared with the model, and what real rich does with them is
+    # counted (classification in the header of Props/C19.lean; none of this is a check)
+    probes = {
+        "dcs": ESC + "Pq#0;2;0;0;0#1~~@@vv@@~~" + ESC + "\\after", "apc": ESC + "_app command" + ESC + "\\text", "pm": ESC + "^pm" + ESC + "\\x",
+        "sos": ESC + "Xs" + ESC + "\\t", "dcs_unterminated": ESC + "Pq#0 no end", "c1_csi": "\x9b31mred\x9b0m plain", "c1_osc": "\x9d0;t\x9cx",
+        "c1_dcs": "\x90q\x9cy", "esc_7_8": ESC + "7save" + ESC + "8restore", "esc_c": "a" + ESC + "cb", "esc_charset": ESC + "(Bcharset",
+        "esc_keypad": ESC + "=keypad", "colon_rgb": ESC + "[38:2::10:20:30mcolon", "colon_underline": ESC + "[4:3mcurly",
+    }
+    for name, p_ in probes.items():
+        lines, err = decode_line_case(ctx, p_, tick)
+        if err is None:
+            plain = lines[0].plain
+            kind = ("kept_verbatim" if plain == p_ else
+                    "escape_bytes_removed_rest_printed" if not any(c in plain for c in (ESC, "\x9b", "\x9d", "\x90", "\x9c")) else "other")
+            ctx.note(f"observed:escape:{name}:{kind}:styled{int(bool(lines[0].spans))}")
+    for _ in range(1500 if ctx.quick else 20000):
+        parts = [rng.choice(list(probes.values()) + ["a", "bc", sgr(1), sgr(0), ESC + "]8;;u" + ESC + "\\", "\x07", ESC + "\\", ESC + "P", "\x9b", "\x9c"]) for _ in range(rng.randint(1, 4))]
+        decode_line_case(ctx, "".join(parts), tick)
     # int() limits
     lim = sys.get_int_max_str_digits() if hasattr(sys, "get_int_max_str_digits") else 0
     if lim:
@@ -753,6 +778,10 @@ def rand_line(rng, tricky):
             # foreign ANSI: omitted parameters, the off codes for the double variants, a reset inside a hyperlink
             parts.append(rng.choice([ESC + "[m", sgr(1) + "b" + ESC + "[;3m" + "i", sgr(21) + "uu" + sgr(24) + "n", sgr(6) + "r" + sgr(25) + "s",
                                      ESC + "]8;;http://f" + ESC + "\\" + sgr(1) + "A" + sgr(0) + "B" + ESC + "]8;;" + ESC + "\\", sgr(4, 21, 24) + "n"]))
+        elif r < 0.72:
+            # the BEL-terminated form of OSC strings (what `ls --hyperlink`, gcc, shells setting the window title write)
+            parts.append(rng.choice([ESC + "]8;;http://b.el/x\x07" + "bel link" + ESC + "]8;;\x07", ESC + "]0;window title\x07" + "titled",
+                                     ESC + "]8;id=7;http://b.el\x07" + sgr(1) + "B" + sgr(22) + ESC + "]8;;" + ESC + "\\"]))
         elif r < 0.76:
             # what other programs write around their text: cursor / erase sequences (dropped by the proxy: a line-oriented
             # console cannot honour them) followed by text that has an "m" further on
@@ -784,8 +813,9 @@ def escape_spans(s):
             if t[0] == "SGR":
                 raw = s[i:].split("m", 1)[0] + "m"
             elif t[0] == "OSC8":
-                end = s.find(ESC + "\\", i)
-                raw = s[i : end + 2]
+                import re as _re
+
+                raw = _re.match(r"\x1b\][^\x07\x1b]*(?:\x07|\x1b\\)", s[i:]).group(0)
             elif t[0] in ("CSI", "ESC"):
                 raw = t[1]
             else:  # CUU / EL2 / SHOW / HIDE: re-scan up to the final byte
@@ -919,6 +949,32 @@ def section_proxy(ctx, tick):
         tick(ops)
         ctx.note("proxy_tricky" if tricky else "proxy_property_alphabet")
         eval_history(ctx, ops, check_rows=not tricky)
+    # ---- carriage returns inside a line (decode_cr_keeps_last_segment): the text after the last CR that is followed by text is
+    # kept; a terminal writes it OVER the earlier text, so the two agree exactly when it covers the earlier text
+    import term as _term
+
+    for _ in range(400 if ctx.quick else 6000):
+        nseg = rng.randint(2, 4)
+        segs = ["".join(rng.choice("abcxyz0189%. ") for _ in range(rng.randint(1, 9))).strip() or "x" for _ in range(nseg)]
+        if rng.random() < 0.6:  # progress-style updates: every later text at least as long
+            segs.sort(key=len)
+        line = "\r".join(segs) + "\r" * rng.choice([0, 0, 1, 2])
+        ops = [("w", line[: len(line) // 2]), ("w", line[len(line) // 2:] + "\n")]
+        tick(ops)
+        ops2, events, raw, excs, output = run_history(ops)
+        ctx.case("proxy_run", [FLAGS, L.enc_ops(ops2)], "/".join(events), shape="interior-cr", sample=f"FileProxy history {ops!r}")
+        if any(e is not None for e in excs):
+            ctx.check(False, "FileProxy carriage return", ops, f"raised {excs!r}")
+            continue
+        got = [r.rstrip() for r in _term.replay(output).text_rows()][0]
+        ctx.check(got == segs[-1], "FileProxy carriage return keeps last segment", line,
+                  f"printed {got!r}, the text after the last carriage return followed by text is {segs[-1]!r}" if got != segs[-1] else "")
+        shown = [r.rstrip() for r in _term.replay(line + "\n").text_rows()][0]
+        if len(segs[-1]) >= max(len(x) for x in segs):
+            ctx.check(got == shown, "FileProxy carriage return (later text covers earlier)", line,
+                      f"printed {got!r}, a terminal shows {shown!r}" if got != shown else "")
+        else:
+            ctx.note("observed:cr_later_text_shorter:" + ("same_as_terminal" if got == shown else "tail_of_earlier_text_dropped"))
     # ---- stdout and stderr proxies on one console (what a live display installs)
     from rich.file_proxy import FileProxy
 
@@ -986,6 +1042,8 @@ def safe_line(rng):
             parts.append(ESC + "]8;id=3;http://e.x/p" + ESC + "\\" + "lnk" + ESC + "]8;;" + ESC + "\\")
         if rng.random() < 0.12:
             parts.append(rng.choice(CSI_OTHER[:10]) + rng.choice(["loading items", "m", "x"]))
+        if rng.random() < 0.08:
+            parts.append(ESC + "]8;;http://b.el\x07" + "bel" + ESC + "]8;;\x07")
     return "".join(parts)
 
 
@@ -1016,7 +1074,7 @@ def section_live(ctx, tick):
     FRAME = ["FRAME one", "frame two"]
     frame_cells = [[(ch, frozenset(), None, None, None) for ch in fr] for fr in FRAME]
     for k in range(90 if ctx.quick else 900):
-        console, f = make_console(60)
+        console, f = make_console(400)  # wide: units never wrap (wrapping is C02)
         kind = ("live", "progress", "live-transient")[k % 3]
         so, se = sys.stdout, sys.stderr
         hist = []  # (stream, op); stream 0 = stdout, 1 = stderr
@@ -1150,6 +1208,73 @@ def section_live(ctx, tick):
             ctx.note("live_stop_with_pending")
 
 
+# ------------------------------------------------------------------ section 6: the display model (C10) and the proxy model (C19) on one history
+def section_joint(ctx, tick):
+    """Both Lean drivers on the same history: `start; writes to stdout / stderr (chunked anyhow); stop` — the lines C10's display
+    model prints (`live_spec`: printed lines above the last frame, pending text completed by the repaired stop) must be the lines
+    C19's proxy model hands to the console (`proxy_run2`, then the pending text of stdout, then of stderr).  The theorem
+    `live_write_is_proxy_write` proves this for all histories; this request keeps the two DRIVERS (and their wire formats) tied."""
+    import subprocess
+
+    import core
+    from core import dec_str
+
+    try:
+        import lib_live as LL
+        import props.c10 as C10
+    except Exception as e:  # noqa: BLE001
+        ctx.note("joint_unavailable:" + type(e).__name__)
+        return
+    drv10 = core.driver_path("C10")
+    if not os.path.exists(drv10) or not ctx.driver_ok:
+        ctx.note("joint_unavailable:driver")
+        return
+    rng = ctx.rng
+    reqs10, reqs19, hists = [], [], []
+    for _ in range(150 if ctx.quick else 2000):
+        cfg = LL.Cfg("live", False, 60, 40, init=["F"])
+        hist = []
+        for _ in range(rng.randint(1, 7)):
+            chunk = "".join(rng.choice(["a", "bc", " ", "x=1", "\n", "\n", "done"]) for _ in range(rng.randint(0, 5)))
+            hist.append((rng.random() < 0.4, chunk))
+        tick(hist)
+        ops10 = [("S",)] + [("W", err, c.split("\n")[:-1], c.split("\n")[-1]) for err, c in hist] + [("X",)]
+        reqs10.append("live_spec\t" + "\t".join([C10.enc_cfg(cfg, bare=0), cfg.enc_init(), C10.enc_ops(cfg, ops10)]))
+        wire = ",".join(("e" if err else "o") + L.enc_ops([("w", c)]) for err, c in hist) + ",oF0,eF0"
+        reqs19.append("proxy_run2\t" + FLAGS + "\t" + wire)
+        hists.append(hist)
+    p = subprocess.run([drv10], input="\n".join(reqs10) + "\n", stdout=subprocess.PIPE, stderr=subprocess.PIPE, text=True, timeout=600)
+    if p.returncode != 0:
+        raise RuntimeError("drv_c10 crashed: " + p.stderr[-500:])
+    a10 = p.stdout.split("\n")[: len(reqs10)]
+    a19 = ctx.model(reqs19)
+    for hist, r10, r19, x10, x19 in zip(hists, reqs10, reqs19, a10, a19):
+        ctx.evaluations += 1
+        ctx.compared += 1
+        try:
+            wf, printed, _frame = x10.split(";")[:3]
+            n, body = printed.split(":", 1)
+            lines10 = [] if n == "0" else [dec_str(t) for t in body.split(",")]
+            lines19 = []
+            for per_op in x19.split("/"):
+                for ev in per_op.split(","):
+                    if ev.startswith("T"):
+                        lines19 += dec_str(ev[1:].split("^", 1)[0]).split("\n")
+                    elif ev:
+                        lines19.append("?" + ev)
+            ok = lines10 == lines19
+        except Exception as e:  # noqa: BLE001
+            ok, lines10, lines19 = False, x10, f"{type(e).__name__}: {x19}"
+        if ok:
+            ctx.agreed += 1
+        else:
+            ctx.dist["MISMATCH:c10_live_spec_vs_c19_proxy_run2"] += 1
+            if len(ctx.mismatches) < 50:
+                ctx.mismatches.append({"request": r10 + "  ||  " + r19, "model": repr(lines19), "impl": repr(lines10),
+                                       "readable": f"C10 display model vs C19 proxy model on {hist!r}"})
+        ctx.note("fn:joint_c10_c19")
+
+
 # ------------------------------------------------------------------ entry points
 def run(ctx):
     check_runtime_facts(ctx)
@@ -1170,6 +1295,7 @@ def run(ctx):
     guarded(ctx, "decode(encode)", lambda tick: section_roundtrip(ctx, tick))
     guarded(ctx, "FileProxy", lambda tick: section_proxy(ctx, tick))
     guarded(ctx, "Live redirect", lambda tick: section_live(ctx, tick))
+    guarded(ctx, "C10 model vs C19 model", lambda tick: section_joint(ctx, tick))
     ctx.flush()
     ctx.rule = (
         "tokenizer: every string <= %d over %r + seeded random to length 14; decoder: every SGR code 0..300 from the null and from a "
@@ -1232,7 +1358,12 @@ MANIFEST = {
     "sgr_table_agrees_with_ecma48 (decide +kernel on the translated table each run); sgr_omitted_parameters_are_zero; witnesses old_empty_param_ignored "
     "(F27), old_reset_drops_link (F28), old_off_keeps_double (F29).  Foreign output: crlf_lines_complete (CR LF terminated lines come out complete) "
     "and other_csi_dropped (a CSI sequence that is not SGR — cursor show / hide, erase, movement, private — is dropped and the text around it comes out "
-    "complete); witnesses old_trailing_cr_erases_line (F31), old_csi_swallows_text (F32).  legacy_windows: decode_encode_legacy (round trip with the link dropped).  "
+    "complete; every_csi_is_sgr_or_dropped: any parameter / intermediate bytes, ANY final byte); osc_bel_terminated; decode_cr_keeps_last_segment; witnesses "
+    "old_trailing_cr_erases_line (F31), old_csi_swallows_text (F32), old_osc_bel_not_recognised (F33).  With the display (C10's Model/Live.lean, imported "
+    "read-only): live_write_is_proxy_write (C10's Op.write IS this model's FileProxy.write: same function, same inputs) and "
+    "live_screen_with_proxied_streams (C10's live_screen composed: start; any prints / refreshes / updates / resizes / writes to both streams; repaired stop — "
+    "the screen shows the printed lines then the last frame, the printed lines being op by op what the proxy hands over, per stream exactly the complete lines "
+    "of its own character stream, pending text completed above the last frame); both drivers are run on the same histories (section_joint).  legacy_windows: decode_encode_legacy (round trip with the link dropped).  "
     "Tie: ~150k (quick) / ~1.5M (thorough) generated cases compared model-vs-rich for _ansi_tokenize, re_csi removal, decode_line / decode "
     "(final decoder style included), Style.render / _render_buffer, and FileProxy histories (what the proxy asks console.print to print, per call), "
     "plus direct evaluation on rich's own output with oracles independent of the model: harness/term.py tokenizer + an ECMA-48 reading of SGR "
@@ -1248,14 +1379,17 @@ MANIFEST = {
     "additionally splits at VT FF FS GS RS NEL LS PS (str.splitlines), so a printed text containing those decodes into more lines than were printed "
     "(observed, outside the statement's texts).  Deviations of the decoder from ECMA-48 on foreign streams are findings with flags, witnesses and diffs: omitted parameter "
     "ignored (F27), SGR 0 drops the hyperlink (F28), 24 / 25 keep the double variants (F29), a line ending in CR decodes to nothing (F31), any `ESC [` "
-    "is read as SGR up to the next m so other CSI sequences swallow the text after them (F32); a CR that is not at the end of a line keeps what follows the "
-    "last one (the code's stated reading; a cell-exact overwrite is outside the statement and those lines stay in the model-only stream); rows 24 / 25 of the model's table come from the flag, not from "
+    "is read as SGR up to the next m so other CSI sequences swallow the text after them (F32); an OSC string ended by BEL — the common form of OSC 8 / OSC 0 — is not recognised: link lost, "
+    "`8;;url` printed (F33); a CR that is not at the end of a line keeps what follows the last one that is followed by text "
+    "(decode_cr_keeps_last_segment; evaluated on real rich: equal to what a terminal shows whenever the later text covers the earlier, counted otherwise); "
+    "control strings DCS / SOS / PM / APC lose introducer and terminator and their payload is printed as text, 8-bit C1 controls and two-character escapes "
+    "outside ESC @.._ are kept verbatim, ISO 8613-6 colon sub-parameters are ignored (all four: classified outside the statement in the header of "
+    "Props/C19.lean, compared with the model and counted as observed:escape:* on every run; a re_csi that consumes whole control strings would be the repair); rows 24 / 25 of the model's table come from the flag, not from "
     "the translated table (tied by the per-code correspondence); 26 (ECMA-48: proportional spacing; rich: not blink2) and unknown colour-space selectors "
-    "after 38 / 48 are outside the theorem.  OUTSIDE THE STATEMENT, observed only (ctx.note, no check, no slug): Live.stop / Progress.stop do not flush the "
-    "proxies, so a partial line pending at stop() — which is neither a line written nor something a flush was asked to emit, and which is not lost "
-    "(IOBase.close -> flush prints it when the proxy object is collected) — lands after the final frame (the frame is then drawn twice) or later; the "
-    "property text constrains lines and flushes, not this placement, so demanding it would be a false alarm; a repair is kept as "
-    "pending_fixes/C19-stop-does-not-flush-proxy.NOT-APPLIED-outside-statement.diff.  A change of the proxies' behaviour is still seen: the two-stream "
+    "after 38 / 48 are outside the theorem.  OUTSIDE THE STATEMENT, observed only (ctx.note, no check, no slug): where a partial line pending at stop() lands — it is "
+    "neither a line written nor something a flush was asked to emit.  Since fix 4c3921f (found through C10) Live.stop / Progress.stop flush the proxies before "
+    "the last refresh, so it lands above the final frame (counter observed:pending_at_stop:on_screen_above_the_final_frame: all cases); before, it appeared "
+    "after the final frame or when the proxy object was collected.  A change of the proxies' behaviour is still seen: the two-stream "
     "histories are compared with the model per operation (proxy_run2) and the screen under a running Live is replayed after every write; "
     "FileProxy.write returns 0 instead of the number of characters (io contract; not in the property, noted only).  What the console writes for a proxied "
     "Text under a running Live is evaluated directly by replaying the console's file on harness/term.py after every write (cell by cell with attributes / "
